@@ -1179,7 +1179,9 @@ func sixFromRules(c *Ctx, path []string, lit Lit, m map[string]interface{}) (six
 	for i := 0; i < 6; i++ {
 		lf := &Node{T: NCmp, Path: path, Op: 13 + i, Lit: lit}
 		text := c.style(c.R.Chance(1, 2)).Render(lf)
-		o := evalFresh(text, m)
+		// now and then on an evaluator that has already processed other objects (among them one that breaks the path off
+		// at a scalar): the order is a property of the rule and the object, not of the evaluator's past
+		o := evalOn(text, m, poisonObjects(c.R, lf))
 		if o.E != "-" {
 			return r, false
 		}
@@ -1289,7 +1291,7 @@ func checkC18(c *Ctx) {
 	ops := map[string]parser.Operation{"long": &parser.IntOperation{}, "dbl": &parser.FloatOperation{}, "str": &parser.StringOperation{}, "ver": &parser.VersionOperation{}}
 	for i := 0; i < n && !c.full(); i++ {
 		kind := pick(c.R, []string{"long", "dbl", "str", "ver"})
-		path := genPath(c.R, 2)
+		path := genPath(c.R, 4)
 		l1, l2 := genLit(c.R, kind), genLit(c.R, kind)
 		lf := &Node{T: NCmp, Path: path, Op: 13, Lit: l1}
 		idc := 0
